@@ -18,7 +18,7 @@ WIT = ["roster_results", "authorised_pushes", "unauthorised_pushes", "presences"
 
 def run(tier):
     if tier == "thorough":
-        cfgs = [dict(name="sm-resumable", config={}, depth=6, dev=3, deadline=1500)]
+        cfgs = [dict(name="sm-resumable", config={}, depth=7, dev=3, deadline=2400)]
         return bfs_check(PROP, HARNESS, tier, cfgs, RULE, ASSUME, witness_required=WIT, crosscheck_depth=2)
     cfgs = [dict(name="sm-resumable", config={}, depth=4, dev=2, deadline=300)]
     return bfs_check(PROP, HARNESS, tier, cfgs, RULE, ASSUME, witness_required=WIT)
